@@ -31,6 +31,8 @@ pub struct VClock {
     pub fail_id: Option<i32>,
     /// every read of the monotonic clock advances it by this many ns afterwards (C12 style scenarios)
     pub advance_ns: i64,
+    /// every read of any clock advances both clocks by this many ns afterwards (delays between the reads of now())
+    pub advance_all: i64,
 }
 
 #[no_mangle]
@@ -58,6 +60,13 @@ pub unsafe extern "C" fn clock_gettime(clk: libc::clockid_t, tp: *mut libc::time
         };
         (*tp).tv_sec = t.0;
         (*tp).tv_nsec = t.1;
+        if v.advance_all != 0 {
+            let adv = v.advance_all as i128;
+            let r = v.real.0 as i128 * 1_000_000_000 + v.real.1 as i128 + adv;
+            v.real = ((r.div_euclid(1_000_000_000)) as i64, (r.rem_euclid(1_000_000_000)) as i64);
+            let m = v.mono.0 as i128 * 1_000_000_000 + v.mono.1 as i128 + adv;
+            v.mono = ((m.div_euclid(1_000_000_000)) as i64, (m.rem_euclid(1_000_000_000)) as i64);
+        }
         Some(0)
     });
     match handled {
@@ -108,7 +117,8 @@ fn cmd_now(a: &[i64]) -> String {
     );
     VCLOCK.with(|v| {
         let mut v = v.borrow_mut();
-        *v = VClock { active: true, real: (a[7], a[8]), mono: (a[9], a[10]), reads: vec![], fail_id: None, advance_ns: 0 };
+        // optional 12th value: every clock read advances both virtual clocks by that many ns (delays between the reads)
+        *v = VClock { active: true, real: (a[7], a[8]), mono: (a[9], a[10]), reads: vec![], fail_id: None, advance_ns: 0, advance_all: a.get(11).copied().unwrap_or(0) };
     });
     let r = catch_unwind(AssertUnwindSafe(|| ceb.now()));
     let reads = VCLOCK.with(|v| {
